@@ -41,10 +41,15 @@ pub fn uid(args: &[&str]) -> String {
                 (Ok(a), Ok(b)) => (a, b),
                 _ => return "BADARG".into(),
             };
+            // all threads start allocating at the same moment (in a FRESH process - PHARNESS_UID_BUMP=0 - these are the first
+            // compilations of the process: a lazily initialised allocator must not hand out its first values twice)
+            let gate = std::sync::Arc::new(std::sync::Barrier::new(t.max(1)));
             let hs: Vec<_> = (0..t)
                 .map(|k| {
+                    let gate = gate.clone();
                     std::thread::spawn(move || {
                         let mut v = Vec::with_capacity(per);
+                        gate.wait();
                         // a program that parses but is rejected late, in code generation (the uid it consumed is lost:
                         // fine - but it must never be handed out again)
                         let failing: String = format!(
